@@ -1,18 +1,25 @@
 (* Model/C11Run.v - case type and checker evaluated on harness-generated cases (C11) *)
 From ReqV Require Export Lib.Bytes Model.Authority Model.Redirect Model.RedirectClient.
 
+(* the header names the harness plays with (short constants keep the case files small) *)
+Definition hAuth : bytes := bs "Authorization".
+Definition hWww : bytes := bs "Www-Authenticate".
+Definition hCookie : bytes := bs "Cookie".
+Definition hCookie2 : bytes := bs "Cookie2".
+Definition hToken : bytes := bs "X-Token".
+
 Inductive c11_case :=
 | HostCase (input obs_hostname obs_domain : bytes)
 | PolicyCase (p : policy) (target : bytes) (via : list bytes) (obs_allowed : bool)
-| ChainCase (ps : list policy) (init : bytes) (targets : list bytes)
-            (obs_sent : list (bytes * (nat * nat))) (obs_refused : bool)
+| ChainCase (ps : list policy) (init : bytes) (hs : hdrs) (targets : list bytes)
+            (obs_sent : list (bytes * hdrs)) (obs_refused : bool)
 (* a sequence of client operations (req.C / SetRedirectPolicy / Clone / request); one observation
    per request, in order *)
-| ClientCase (ops : list cop) (obs : list (list (bytes * (nat * nat)) * bool))
+| ClientCase (ops : list cop) (obs : list (list (bytes * hdrs) * bool))
 (* several chains in flight through ONE client; [sched] = the order in which the harness let the
    responses (hence the CheckRedirect evaluations) happen; one observation per chain *)
-| ConcCase (ps : list policy) (chains : list (bytes * list bytes)) (sched : list nat)
-           (obs : list (list (bytes * (nat * nat)) * bool)).
+| ConcCase (ps : list policy) (chains : list (bytes * hdrs * list bytes)) (sched : list nat)
+           (obs : list (list (bytes * hdrs) * bool)).
 
 (* Host header as net/http writes it: an empty port is dropped ("h:" -> "h") *)
 Definition drop_empty_port (h : bytes) : bytes :=
@@ -21,11 +28,13 @@ Definition drop_empty_port (h : bytes) : bytes :=
   | [] => h
   end.
 
-Definition sent_eqb (a : sent) (b : bytes * (nat * nat)) : bool :=
-  bytes_eqb (drop_empty_port (s_host a)) (drop_empty_port (fst b)) &&
-  Nat.eqb (s_auth a) (fst (snd b)) && Nat.eqb (s_cookie a) (snd (snd b)).
+Definition hdr_eqb (a b : bytes * nat) : bool := bytes_eqb (fst a) (fst b) && Nat.eqb (snd a) (snd b).
 
-Definition outcome_eqb (o : list sent * chain_end) (b : list (bytes * (nat * nat)) * bool) : bool :=
+Definition sent_eqb (a : sent) (b : bytes * hdrs) : bool :=
+  bytes_eqb (drop_empty_port (s_host a)) (drop_empty_port (fst b)) &&
+  list_eqb hdr_eqb (s_hdrs a) (snd b).
+
+Definition outcome_eqb (o : list sent * chain_end) (b : list (bytes * hdrs) * bool) : bool :=
   list_eqb sent_eqb (fst o) (fst b) &&
   Bool.eqb (match snd o with Refused => true | Completed => false end) (snd b).
 
@@ -33,8 +42,8 @@ Definition c11_check (c : c11_case) : bool :=
   match c with
   | HostCase i h d => bytes_eqb (get_hostname i) h && bytes_eqb (get_domain i) d
   | PolicyCase p t via a => Bool.eqb (permits p t via) a
-  | ChainCase ps init ts obs refused =>
-      let '(l, e) := run_chain ps init ts in
+  | ChainCase ps init hs ts obs refused =>
+      let '(l, e) := run_chain ps init hs ts in
       list_eqb sent_eqb l obs &&
       Bool.eqb (match e with Refused => true | Completed => false end) refused
   | ClientCase ops obs => list_eqb outcome_eqb (snd (crun [] ops)) obs
@@ -43,5 +52,5 @@ Definition c11_check (c : c11_case) : bool :=
                            | (l, Some e) => outcome_eqb (l, e) o
                            | (_, None) => false      (* the harness plays every chain to its end *)
                            end)
-               (run_sched ps sched (map (fun c => chain_start (fst c) (snd c)) chains)) obs
+               (run_sched ps sched (map (fun c => chain_start (fst (fst c)) (snd (fst c)) (snd c)) chains)) obs
   end.
